@@ -168,11 +168,17 @@ pub fn std_apply(v: &mut Vec<u64>, op: &Op, o: &[Oc]) -> Result<(String, usize),
     };
     let r = match op {
         Op::Retain => {
-            v.retain_mut(|_| next() != 0);
+            v.retain_mut(|x| {
+                std_log_args(*x, NOARG);
+                next() != 0
+            });
             String::new()
         }
         Op::DedupBy => {
-            v.dedup_by(|_, _| next() != 0);
+            v.dedup_by(|a, b| {
+                std_log_args(*a, *b);
+                next() != 0
+            });
             String::new()
         }
         Op::Truncate(n) => {
@@ -257,6 +263,7 @@ pub fn std_apply(v: &mut Vec<u64>, op: &Op, o: &[Oc]) -> Result<(String, usize),
                 while i < v.len() {
                     let x = v[i];
                     i += 1;
+                    std_log_args(x, NOARG);
                     if next() != 0 {
                         out.push(x);
                         found = true;
@@ -285,6 +292,7 @@ pub fn std_apply(v: &mut Vec<u64>, op: &Op, o: &[Oc]) -> Result<(String, usize),
         }
         Op::MapInPlace => {
             for x in v.iter_mut() {
+                std_log_args(*x, NOARG);
                 *x = next();
             }
             String::new()
@@ -296,6 +304,17 @@ pub fn std_apply(v: &mut Vec<u64>, op: &Op, o: &[Oc]) -> Result<(String, usize),
         Op::Reserve(_) | Op::ReserveExact(_) | Op::ShrinkToFit => String::new(),
         Op::ShrinkTo(n) => {
             v.shrink_to(*n);
+            String::new()
+        }
+        Op::Alt(5, _) => {
+            // the semantic route: the predicate is computed from the pair it is handed
+            let mut n = 0usize;
+            v.dedup_by(|a, b| {
+                std_log_args(*a, *b);
+                n += 1;
+                near_ids(*a, *b)
+            });
+            consumed.set(n);
             String::new()
         }
         Op::Alt(_, inner) => {
@@ -328,14 +347,20 @@ pub fn std_apply(v: &mut Vec<u64>, op: &Op, o: &[Oc]) -> Result<(String, usize),
         Op::PopIf => {
             if v.is_empty() {
                 "none".into()
-            } else if next() != 0 {
+            } else if {
+                std_log_args(*v.last().unwrap(), NOARG);
+                next() != 0
+            } {
                 format!("some:{}", v.pop().unwrap())
             } else {
                 "none".into()
             }
         }
         Op::DedupByKey => {
-            v.dedup_by_key(|_| next());
+            v.dedup_by_key(|x| {
+                std_log_args(*x, NOARG);
+                next()
+            });
             String::new()
         }
         Op::Splice(a, b, ids, pulls, hint, lie) => {
@@ -598,6 +623,10 @@ macro_rules! impl_vecdyn {
                     }
                     Op::Alt(4, inner) if **inner == Op::DedupBy => {
                         s.dedup();
+                        String::new()
+                    }
+                    Op::Alt(5, inner) if **inner == Op::DedupBy => {
+                        s.dedup_by($T::same_sem);
                         String::new()
                     }
                     Op::Truncate(n) => {
@@ -1044,6 +1073,7 @@ pub fn std_apply_rev(v: &mut Vec<u64>, op: &Op, o: &[Oc]) -> Result<(String, usi
                 "none".into()
             } else {
                 used += 1;
+                std_log_args(d[0], NOARG);
                 if vals[0] != 0 { format!("some:{}", d.pop_front().unwrap()) } else { "none".into() }
             }
         }
